@@ -91,7 +91,7 @@ func (w *World) runLevel(g *Grammar, fn *ssa.Function, tok int64, name string) [
 		return false, AVal{}
 	}
 	ai := w.newInterp(hooks)
-	ai.MaxVisits = 3
+	ai.MaxVisits = 5
 	st := w.initState()
 	sc := st.externObj(g.ScannerT, nil)
 	p := st.externObj(g.ParserT, nil)
@@ -539,7 +539,7 @@ func (w *World) runStep(g *Grammar, fn *ssa.Function, stream []tokSpec, namespac
 		return false, AVal{}
 	}
 	ai := w.newInterp(hooks)
-	ai.MaxVisits = 3
+	ai.MaxVisits = 5
 	st := w.initState()
 	scObj = st.externObj(g.ScannerT, nil)
 	scObj.Fields[streamPos] = aInt(0)
